@@ -164,6 +164,13 @@ Definition find_atom_random_displ (pos : list (V3 T)) (tb : bond_table) (k : nat
   let direction := vdivs direction nrm in
   Ok (vscaler direction g).
 
+(* move_mol_atom(atoms_pos, bonds_info, atom_index, sigma_scale=s) with displ=None: the displacement is drawn by
+   find_atom_random_displ on the (copied) input positions, then the move proceeds as for a given displacement *)
+Definition move_mol_atom_default (pos : list (V3 T)) (tb : bond_table) (k : nat) (sigma_scale : T)
+  (u : V3 T) (neg : bool) (g : T) : res (list (V3 T)) :=
+  let* displ := find_atom_random_displ pos tb k sigma_scale u neg g in
+  move_mol_atom pos tb k displ.
+
 End Transform.
 Arguments bond_table T : clear implicits.
 Arguments edge T : clear implicits.
